@@ -111,14 +111,22 @@ def tape_runs(ctx):
                     ctx.report("epk is not the generated ephemeral key on the recipient's curve", {"alg": alg, "epk": epk}, "tape:epk")
 
 
-def stats(ctx):
-    from joserfc import jwe
-    rng = ctx.rng
-    n = 200 if ctx.tier == "quick" else 10000
+FORMS = ["compact", "flat-none", "flat-default", "flat-rhdr", "general-none", "general-default", "general-rhdr"]
+
+
+def stats_configs(ctx):
     configs = [("dir", "A128GCM"), ("A128KW", "A128CBC-HS256"), ("A256GCMKW", "A256GCM"), ("PBES2-HS256+A128KW", "A128GCM"), ("ECDH-ES", "A128GCM"),
                ("ECDH-ES+A128KW", "C20P"), ("RSA-OAEP", "XC20P")]
     if ctx.tier == "thorough":
         configs += [(a, e) for a in ("A192KW", "ECDH-1PU", "A128GCMKW") for e in ("A192CBC-HS384", "A192GCM")]
+    return configs
+
+
+def stats(ctx, configs=None):
+    from joserfc import jwe
+    rng = ctx.rng
+    n = 200 if ctx.tier == "quick" else 10000
+    configs = [tuple(c) for c in configs] if configs else stats_configs(ctx)
     for alg, enc in configs:
         kn = E.key_name(alg, enc)
         key = K.key(kn, private=True)
@@ -127,9 +135,28 @@ def stats(ctx):
         nn = n if not (alg.startswith("PBES2") or alg.startswith("RSA")) else max(50, n // 10)
         seen = {"iv": [], "cek": [], "epk": [], "kwiv": [], "p2s": []}
         for i in range(nn):
-            tok = jwe.encrypt_compact({"alg": alg, "enc": enc}, b"same plaintext", pub, algorithms=E.ALL_NAMES, sender_key=sender)
-            p, ek, iv, ct, tg = tok.split(".")
-            hdr = json.loads(b64d(p))
+            # every way the API lets a caller state the same encryption: fresh header dicts and fresh objects each time
+            form = FORMS[i % len(FORMS)]
+            if form == "compact":
+                tok = jwe.encrypt_compact({"alg": alg, "enc": enc}, b"same plaintext", pub, algorithms=E.ALL_NAMES, sender_key=sender)
+                p, ek, iv, ct, tg = tok.split(".")
+                hdr = json.loads(b64d(p))
+            else:
+                ser, how = form.split("-")
+                cls = jwe.FlattenedJSONEncryption if ser == "flat" else jwe.GeneralJSONEncryption
+                obj = cls({"enc": enc} if how == "rhdr" else {"alg": alg, "enc": enc}, b"same plaintext")
+                if how == "none":
+                    obj.add_recipient(None, pub)
+                elif how == "default":
+                    obj.add_recipient(key=pub)
+                else:
+                    obj.add_recipient({"alg": alg}, pub)
+                v = jwe.encrypt_json(obj, None, algorithms=E.ALL_NAMES, sender_key=sender)
+                r0 = v["recipients"][0] if "recipients" in v else v
+                hdr = json.loads(b64d(v["protected"]))
+                hdr.update(v.get("unprotected") or {})
+                hdr.update(r0.get("header") or {})
+                ek, iv, tg = r0.get("encrypted_key", ""), v["iv"], v["tag"]
             seen["iv"].append(b64d(iv))
             if alg not in ("dir", "ECDH-ES", "ECDH-1PU") and (i < 50 or not alg.startswith(("RSA", "PBES2"))):
                 try:
@@ -264,7 +291,21 @@ def run(ctx):
 
 
 def search(ctx):
+    # (1) the statistics of every configuration on its own, each in a fresh interpreter: state left behind by an
+    # earlier configuration (which is what breaks the in-process run when something is shared) cannot mask it
+    from common import fresh_process
     saved = ctx.tier
+    ctx.tier = "quick"
+    try:
+        for cfg in stats_configs(ctx):
+            reports, evals, err = fresh_process("C18", "stats", [list(cfg)], ctx.seed, "quick")
+            ctx.evaluations += evals
+            for text, obj, sig in reports:
+                ctx.report(text + " (configuration run on its own in a fresh process)", obj, sig)
+    finally:
+        ctx.tier = saved
+    if ctx.violations:
+        return
     ctx.tier = "thorough"
     try:
         tape_runs(ctx)
